@@ -469,6 +469,12 @@ class Program:
                             r = root_of(lhs)
                             if r is not None and r[2] in ('g', 's'):
                                 glob[r[1]] |= fs
+                    elif rhs and rhs[0] == 'v' and rhs[2].startswith('p') and ev.get('pt'):
+                        # a (function-pointer) parameter saved into a member: resolved through the callers' arguments
+                        lf = last_field(strip(e[2]))
+                        pi = int(rhs[2][1:])
+                        if lf:
+                            field[lf].add(('param', f.name, pi))
                 elif ev['k'] == 'call':
                     n = callee_name(e)
                     if n:
@@ -478,6 +484,12 @@ class Program:
                                 argpos[(n, i)].add(a[1])
                             elif a and a[0] == 'u' and a[1] == '&' and strip(a[2]) and strip(a[2])[0] == 'f':
                                 argpos[(n, i)].add(strip(a[2])[1])
+                            elif a and a[0] == 'v' and a[2].startswith('p'):
+                                # a parameter forwarded as an argument: resolved transitively (marker entry)
+                                argpos[(n, i)].add(('param', f.name, int(a[2][1:])))
+                            elif a and a[0] == 'm':
+                                # a function-pointer member forwarded as an argument
+                                argpos[(n, i)].add(('field', a[1]))
         for g in self.globals:
             e = g.get('e')
             if e and g.get('fnptr') or (e and e[0] == 'il'):
@@ -504,13 +516,13 @@ class Program:
                     if fid.endswith('.dctor'):
                         r = self.records.get(fid.split('.', 1)[0])
                         if r is None or (r['fields'] and r['fields'][0]['n'] == 'dctor'):
-                            out |= fs
+                            out |= self._expand(fs)
                 return out
-            return set(field.get(c[1], ()))
+            return self._expand(field.get(c[1], ()))
         if c[0] == 'i':
             lf = last_field(c)
             if lf:
-                return set(field.get(lf, ()))
+                return self._expand(field.get(lf, ()))
             r = root_of(c)
             if r is not None and r[2] in ('g', 's'):
                 return set(glob.get(r[1], ()))
@@ -519,7 +531,7 @@ class Program:
             if c[2] in ('g', 's'):
                 return set(glob.get(c[1], ()))
             if c[2].startswith('p'):
-                return set(argpos.get((f.name, int(c[2][1:])), ()))
+                return self._param_targets(f.name, int(c[2][1:]), set())
             if c[2] == 'l':
                 out = set()
                 for ev in f.events(('st', 'decl')):
@@ -530,6 +542,38 @@ class Program:
                         out |= self._fn_values(f, e[3])
                 return out
         return set()
+
+    def _expand(self, items):
+        """Resolve forwarded-parameter / member markers of a function-pointer slot into function names."""
+        field, glob, argpos = self.fp_facts()
+        out = set()
+        for x in items:
+            if isinstance(x, tuple):
+                if x[0] == 'param':
+                    out |= self._param_targets(x[1], x[2], set())
+                elif x[0] == 'field':
+                    out |= {y for y in field.get(x[1], ()) if not isinstance(y, tuple)}
+            else:
+                out.add(x)
+        return out
+
+    def _param_targets(self, fname, i, seen):
+        """Functions that may be passed (directly, through forwarded parameters or function-pointer members) as
+        argument i of `fname`."""
+        field, glob, argpos = self.fp_facts()
+        if (fname, i) in seen:
+            return set()
+        seen.add((fname, i))
+        out = set()
+        for x in argpos.get((fname, i), ()):
+            if isinstance(x, tuple):
+                if x[0] == 'param':
+                    out |= self._param_targets(x[1], x[2], seen)
+                elif x[0] == 'field':
+                    out |= {y for y in field.get(x[1], ()) if not isinstance(y, tuple)}
+            else:
+                out.add(x)
+        return out
 
     def _fn_values(self, f, e):
         e = strip(e)
@@ -605,8 +649,7 @@ class Program:
 
     def thread_entries(self):
         """Functions passed to svt_create_thread (directly or through EB_CREATE_THREAD*)."""
-        _, _, argpos = self.fp_facts()
-        return set(argpos.get(('svt_create_thread', 0), ()))
+        return self._param_targets('svt_create_thread', 0, set())
 
 
 def _load_json(p):
